@@ -77,7 +77,8 @@ impl PropCase for Total {
             None => &self.x,
         };
         // ---- allocating parser inside an allocation window
-        let (res, w) = window(|| complete::parse(x).map(|f| f.messages.len()).map_err(|e| crate::conv::PKind::of(&e)));
+        let (res, w) = window(|| complete::parse(x).map(|f| f.messages.len()));
+        let res = res.map_err(|e| crate::conv::PKind::of(&e));
         let bound = PER_BYTE * x.len() as u64 + SLACK;
         ensure!(
             w.bytes <= bound,
@@ -151,6 +152,7 @@ impl Total {
 
 pub fn run(ctx: &mut Ctx) {
     ctx.journal_every_case(true);
+    crate::fe::format_errors(true);
     // declared lengths 2^8 .. 2^44 at EVERY TLF position of valid files (stale and fixed CRC)
     let nfiles = if ctx.quick() { 6 } else { 200 };
     for f in 0..nfiles {
